@@ -849,8 +849,9 @@ static void iauth_read(evutil_socket_t fd, short events, void *iauth_in_v)
 
         log_message(iauth_log, LOG_DEBUG, "> %s", line);
         lid = strtol(line, &sep, 10);
-        if (lid < INT_MIN || lid > INT_MAX) {
-            /* Not an id the server can have sent; do not let it alias one. */
+        if (sep == line || lid < INT_MIN || lid > INT_MAX) {
+            /* No id at all (strtol() would call that client 0), or not one
+             * the server can have sent; do not let it alias a client. */
             free(line);
             continue;
         }
